@@ -56,6 +56,9 @@ type advItem struct {
 	// whose element name) the unknown element carries, -1 none.  Such an element
 	// is not that feature's advertisement.
 	alias int
+	// for an unknown item of a long advertisement: a number that makes its
+	// namespace distinct (0: the one shared unknown namespace)
+	pad int
 }
 
 type selection struct {
@@ -82,7 +85,19 @@ func (tc tcase) String() string {
 	if !tc.recv {
 		for i, a := range tc.adverts {
 			fmt.Fprintf(&sb, "\n  advertisement %d:", i)
+			npad := 0
 			for _, it := range a {
+				if it.k < 0 && it.alias < 0 && npad > 0 {
+					npad++
+					continue
+				}
+				if npad > 1 {
+					fmt.Fprintf(&sb, " ...(%d unknown features in all; pad=%v)", npad, a[0].pad > 0 || it.pad > 0)
+				}
+				npad = 0
+				if it.k < 0 && it.alias < 0 {
+					npad = 1
+				}
 				fmt.Fprintf(&sb, " f%d(required=%v)", it.k, it.required)
 				if it.k < 0 && it.alias >= 0 {
 					fmt.Fprintf(&sb, "[an element <other/> in the namespace of f%d]", it.alias)
@@ -153,6 +168,25 @@ func genCase(t *rapid.T) tcase {
 					it.required = rapid.Bool().Draw(t, "required")
 				}
 				adv = append(adv, it)
+			}
+			// a long advertisement: dozens or hundreds of features this side does
+			// not know, before, between or behind the configured ones
+			if rapid.IntRange(0, 11).Draw(t, "longAdvert") == 0 {
+				np := rapid.SampledFrom([]int{15, 31, 32, 33, 64, 100, 255, 256, 257, 1100}).Draw(t, "npad")
+				at := 0
+				if len(adv) > 0 && rapid.IntRange(0, 2).Draw(t, "padFront") == 0 {
+					at = rapid.IntRange(0, len(adv)).Draw(t, "padAt")
+				}
+				distinct := rapid.IntRange(0, 3).Draw(t, "padDistinct") > 0
+				var pads []advItem
+				for k := 1; k <= np; k++ {
+					it := advItem{k: -1, alias: -1, required: k%7 == 0}
+					if distinct {
+						it.pad = k
+					}
+					pads = append(pads, it)
+				}
+				adv = append(adv[:at:at], append(pads, adv[at:]...)...)
 			}
 			// listed finding: a feature that sets the ready bit itself (like
 			// resource binding) advertised next to another mandatory feature may
@@ -361,6 +395,8 @@ func (r *run) advertisement(adv []advItem) string {
 			space, local = r.tc.feats[it.k].space, r.tc.feats[it.k].local
 		} else if it.alias >= 0 {
 			space, local = r.tc.feats[it.alias].space, "other"
+		} else if it.pad > 0 {
+			space = fmt.Sprintf("urn:verif:unknown:%d", it.pad)
 		}
 		sb.WriteString(`<` + local + ` xmlns="` + space + `">`)
 		if it.required {
